@@ -148,6 +148,33 @@ func (b *batch) GetNetPutsByPrefix(prefix []byte) map[string][]byte {
 	return result
 }
 
+// netChanges returns, in ascending order, the keys of [start, limit) the batch has written, and the
+// pending value of those whose last operation is a put; a returned key without a value is one whose
+// last operation is a delete.
+func (b *batch) netChanges(start, limit []byte) ([]string, map[string][]byte) {
+	keys := make([]string, 0)
+	puts := make(map[string][]byte)
+	inRange := func(k string) bool {
+		return bytes.Compare([]byte(k), start) >= 0 && bytes.Compare([]byte(k), limit) < 0
+	}
+	for k, v := range b.puts {
+		if !inRange(k) {
+			continue
+		}
+		keys = append(keys, k)
+		if seqDel, ok := b.deletes[k]; !ok || v.seq > seqDel {
+			puts[k] = v.data
+		}
+	}
+	for k := range b.deletes {
+		if _, ok := b.puts[k]; !ok && inRange(k) {
+			keys = append(keys, k)
+		}
+	}
+	sort.Strings(keys)
+	return keys, puts
+}
+
 func (b *batch) Put(k, v []byte) {
 
 	b.b.Put(k, v)
@@ -827,67 +854,30 @@ func (b *levelBucket) innerKeyForIterator(key []byte) []byte {
 }
 
 // ------------------ batchIterator -------------------- //
+// batchIterator walks, in ascending order, the keys of a range that the batch had written when the
+// iterator was created: keys whose last operation is a put (with the pending value) and keys whose last
+// operation is a delete.
 type batchIterator struct {
-	ptr   int
-	keys  []string
-	m     map[string][]byte
-	start []byte
-	limit []byte
-	lower []byte // lower bound of the iterator's range: Seek and Reset never move start below it
+	ptr  int
+	keys []string
+	m    map[string][]byte
 }
 
 func newBatchIterator(b *batch, start, limit []byte) *batchIterator {
-	items := b.GetNetPutsByPrefix(nil)
-	it := &batchIterator{
-		ptr:   -1,
-		keys:  make([]string, 0, len(items)),
-		m:     make(map[string][]byte),
-		start: start,
-		limit: limit,
-		lower: start,
-	}
-	for k, v := range items {
-		it.keys = append(it.keys, k)
-		it.m[k] = v
-	}
-	sort.Slice(it.keys, func(i, j int) bool {
-		return bytes.Compare([]byte(it.keys[i]), []byte(it.keys[j])) < 0
-	})
-	return it
-}
-
-// from returns the position a Seek or Reset to key starts at: key itself, or the lower bound of
-// the iterator's range when key lies below it (as the underlying leveldb iterator does).
-func (bi *batchIterator) from(key []byte) []byte {
-	if bytes.Compare(key, bi.lower) < 0 {
-		return bi.lower
-	}
-	return key
+	keys, m := b.netChanges(start, limit)
+	return &batchIterator{keys: keys, m: m}
 }
 
 func (bi *batchIterator) Seek(seekKey []byte) bool {
-	bi.start = bi.from(seekKey)
-	for i, key := range bi.keys {
-		if bytes.Compare([]byte(key), bi.start) >= 0 && bytes.Compare([]byte(key), bi.limit) < 0 {
-			bi.ptr = i
-			return true
-		}
-	}
-	bi.ptr = len(bi.keys)
-	return false
+	bi.ptr = sort.SearchStrings(bi.keys, string(seekKey))
+	return !bi.End()
 }
 
 func (bi *batchIterator) Next() bool {
-	for i := bi.ptr + 1; i < len(bi.keys); i++ {
-		key := bi.keys[i]
-		if bytes.Compare([]byte(key), bi.start) >= 0 &&
-			bytes.Compare([]byte(key), bi.limit) < 0 {
-			bi.ptr = i
-			return true
-		}
+	if bi.ptr < len(bi.keys) {
+		bi.ptr++
 	}
-	bi.ptr = len(bi.keys)
-	return false
+	return !bi.End()
 }
 
 func (bi *batchIterator) End() bool {
@@ -908,18 +898,30 @@ func (bi *batchIterator) Value() []byte {
 	return bi.m[bi.keys[bi.ptr]]
 }
 
-func (bi *batchIterator) Reset(start []byte) {
-	bi.ptr = -1
-	bi.start = bi.from(start)
+// Deleted reports whether the last operation of the batch on the current key is a delete.
+func (bi *batchIterator) Deleted() bool {
+	if bi.ptr < 0 || bi.ptr >= len(bi.keys) {
+		return false
+	}
+	_, put := bi.m[bi.keys[bi.ptr]]
+	return !put
 }
 
 // ------------------ levelIterator -------------------- //
+// levelIterator iterates a range of a bucket. In a read transaction it is the iterator of the
+// transaction's snapshot. In a write transaction it shows the transaction's own view as of the
+// iterator's creation: the committed entries merged with the keys the batch has written (batchIter),
+// in one ascending run; a key the batch deleted is skipped, a key it overwrote appears once, with
+// the pending value.
 type levelIterator struct {
 	iter      iterator.Iterator
 	iterEnd   bool
 	batchIter *batchIterator
 	slice     *db.Range
 	b         *levelBucket
+	// write transactions only: which side supplies the current entry (both: a committed key the
+	// batch has overwritten), and whether the iterator has been moved at all
+	onIter, onBatch, started bool
 }
 
 func (b *levelBucket) NewIterator(slice *db.Range) db.Iterator {
@@ -951,45 +953,59 @@ func (b *levelBucket) NewIterator(slice *db.Range) db.Iterator {
 
 func (it *levelIterator) Seek(key []byte) bool {
 	ikey := it.b.innerKeyForIterator(key)
-	sk := it.iter.Seek(ikey)
-	if sk {
-		it.iterEnd = false
-		if !it.b.tx.readOnly {
-			it.batchIter.Reset(ikey)
-		}
-	} else {
-		it.iterEnd = true
-		if !it.b.tx.readOnly {
-			sk = it.batchIter.Seek(ikey)
-		}
+	it.iterEnd = !it.iter.Seek(ikey)
+	if it.b.tx.readOnly {
+		return !it.iterEnd
 	}
-	return sk
+	it.started = true
+	it.batchIter.Seek(ikey)
+	return it.merge()
 }
 
 func (it *levelIterator) Next() bool {
-	if it.iterEnd {
-		if it.b.tx.readOnly || it.batchIter.End() {
-			return false
+	if it.b.tx.readOnly {
+		if !it.iterEnd {
+			it.iterEnd = !it.iter.Next()
 		}
-		return it.batchIter.Next()
+		return !it.iterEnd
 	}
-	hasNext := it.iter.Next()
-	if !hasNext {
-		it.iterEnd = true
-		if it.b.tx.readOnly || it.batchIter.End() {
-			return false
+	// step over the current entry on the side(s) it came from
+	if it.onIter || !it.started {
+		it.iterEnd = !it.iter.Next()
+	}
+	if it.onBatch {
+		it.batchIter.Next()
+	}
+	it.started = true
+	return it.merge()
+}
+
+// merge settles a write transaction's iterator on the smaller of the current committed entry and the
+// current batch key (on both when they are equal: the batch's value wins), skipping every key the
+// batch has deleted together with the committed entry it hides.
+func (it *levelIterator) merge() bool {
+	for {
+		it.onIter, it.onBatch = !it.iterEnd, !it.batchIter.End()
+		if it.onIter && it.onBatch {
+			c := bytes.Compare(it.iter.Key(), it.batchIter.Key())
+			it.onIter, it.onBatch = c <= 0, c >= 0
 		}
-		return it.batchIter.Next()
+		if !it.onBatch || !it.batchIter.Deleted() {
+			return it.onIter || it.onBatch
+		}
+		if it.onIter {
+			it.iterEnd = !it.iter.Next()
+		}
+		it.batchIter.Next()
 	}
-	return hasNext
 }
 
 func (it *levelIterator) Key() []byte {
 	var data []byte
-	if !it.iterEnd {
-		data = it.iter.Key()
-	} else if !it.b.tx.readOnly && !it.batchIter.End() {
+	if it.onBatch {
 		data = it.batchIter.Key()
+	} else if it.onIter || (it.b.tx.readOnly && !it.iterEnd) {
+		data = it.iter.Key()
 	}
 	if len(data) > 0 {
 		return data[it.b.pathLen+1:]
@@ -999,10 +1015,10 @@ func (it *levelIterator) Key() []byte {
 
 func (it *levelIterator) Value() []byte {
 	var data []byte
-	if !it.iterEnd {
-		data = it.iter.Value()
-	} else if !it.b.tx.readOnly && !it.batchIter.End() {
+	if it.onBatch {
 		data = it.batchIter.Value()
+	} else if it.onIter || (it.b.tx.readOnly && !it.iterEnd) {
+		data = it.iter.Value()
 	}
 	return data
 }
